@@ -224,7 +224,8 @@ fn build_cases(tape: &[u8], which: Which, n_inputs_scale: usize) -> Vec<Result<G
         // families, nullable chains ..): unit-typed, so only the language, the
         // error position and the expected lists are observable - exactly what
         // these properties are about
-        Which::C01 | Which::C04 | Which::C05 | Which::C07 | Which::C08 if t.chance(80) => gen::gen_cfg(&mut t).0,
+        Which::C01 if t.chance(140) => gen::gen_cfg(&mut t).0,
+        Which::C04 | Which::C05 | Which::C07 | Which::C08 if t.chance(80) => gen::gen_cfg(&mut t).0,
         Which::C16 => gen::gen_recovery(&mut t),
         Which::C17 if t.chance(70) => gen::gen_recovery(&mut t),
         // `expected` of the first error in grammars with `!` (table-driven only)
